@@ -33,6 +33,11 @@ CORPUS = [
     ('sup_gid', 'Kita<_ŠČ0>', '(_ŠČ0, _ŠČ1)', 'Kita<u8>', '(u8, Vec<_ŠČ0>)', 'pos'),
     ('sup_gid', '-', 'W<_ŠČ0>', '-', 'W<u8>', 'pos'),
     ('sup_gid', '-', 'W<_ŠČ0>', 'Kita', 'W<u8>', 'neg'),
+    # argument lists of different lengths never match, whichever side is longer (seed C09h)
+    ('sup_ty', 'W<_ŠČ0>', 'W<_ŠČ0, (_ŠČ1,)>', 'neg'),
+    ('sup_ty', 'W<_ŠČ0, _ŠČ1>', 'W<u8>', 'neg'),
+    ('sup_path', 'Tr<_ŠČ0>', 'Tr<Vec<i32>, u8>', 'neg'),
+    ('sup_path', 'Iterator<>', 'Iterator<Item = _ŠČ0>', 'neg'),
 ]
 
 
